@@ -670,6 +670,7 @@ type facts struct {
 	uses                                                     []indexUse
 	entry                                                    map[string]*guard
 	scanned                                                  []string
+	fsRecs                                                   [][4]string
 }
 
 var pureOS = map[string]bool{"IsNotExist": true, "IsExist": true, "IsPermission": true, "IsTimeout": true,
@@ -936,11 +937,12 @@ func main() {
 									flags = exprStr(x.Args[1])
 									if fn0 := fn; fn0 != nil && strings.HasSuffix(site, ":newPackage") {
 										for _, fl := range strings.Split(flags, "|") {
-											fx.openFlags = append(fx.openFlags, strings.TrimSpace(fl))
+											fx.openFlags = append(fx.openFlags, strings.TrimPrefix(strings.TrimSpace(fl), "os."))
 										}
 									}
 								}
 								fx.fsCalls = append(fx.fsCalls, site+":"+calleeName(fn)+":"+flags)
+								fx.fsRecs = append(fx.fsRecs, [4]string{fname, strings.SplitN(site, ":", 2)[1], calleeName(fn), flags})
 							case !isStd(pth) && !w.repoFunc(fn):
 								fx.extCalls = append(fx.extCalls, site+":"+calleeName(fn))
 							}
@@ -1409,6 +1411,14 @@ inductive Guard where
   | and (a b : Guard) | or (a b : Guard) | not (a : Guard)
   deriving DecidableEq, Repr
 
+/-- one call into the file-system API (same data as fsCallSites, structured) -/
+structure FsCall where
+  file : String
+  function : String
+  callee : String
+  flags : String
+  deriving DecidableEq, Repr
+
 /-- typs[index] in function site; guard = entry condition of the function (Add: none; Generate: the
 arities registered into the plugin's table; helpers: what holds at their call sites) and the len(typs)
 checks that dominate the expression. -/
@@ -1429,6 +1439,17 @@ func write(w *world, fx *facts) {
 	b.WriteString(leanList("packageVars", "package-level variables: file:name:type", fx.pkgVars, false))
 	b.WriteString(leanList("mutablePackageVars", "package-level variables assigned, inc/dec'd, stored through or address-taken outside their declaration: file:var:file:function", fx.mutVars, false))
 	b.WriteString(leanList("fsCallSites", "calls into os, io/ioutil, os/exec, syscall, go/format and FS-touching path/filepath functions: file:function:callee:flags", fx.fsCalls, false))
+	sort.Slice(fx.fsRecs, func(i, j int) bool {
+		return strings.Join(fx.fsRecs[i][:], ":") < strings.Join(fx.fsRecs[j][:], ":")
+	})
+	b.WriteString("/-- fsCallSites as records -/\ndef fsCalls : List FsCall := [")
+	for i, r := range fx.fsRecs {
+		if i > 0 {
+			b.WriteString(",")
+		}
+		b.WriteString("\n  ⟨" + leanStr(r[0]) + ", " + leanStr(r[1]) + ", " + leanStr(r[2]) + ", " + leanStr(r[3]) + "⟩")
+	}
+	b.WriteString("]\n\n")
 	b.WriteString(leanList("externalCalls", "calls into packages outside the standard library and the repo (they only read the file system; contract checked by strace)", fx.extCalls, false))
 	b.WriteString(leanList("rewriteOpenFlags", "the flag expression of the os.OpenFile call in newPackage, split on |", fx.openFlags, true))
 	b.WriteString(leanList("swallowedErrors", "err != nil branches that return a nil error or fall through, and dropped error results of repo-defined callees", fx.swallowed, false))
